@@ -72,8 +72,8 @@ def build(reg):
 
 
     # ---------------------------------------------------------------- terminal_blocks
-    def tb_parts(S, blocks, upto_closed, tree):
-        """facts about the blocks b < upto_closed (all complete runs)"""
+    def tb_parts(S, blocks, upto_closed, tree, bound):
+        """facts about the blocks b < upto_closed (all complete runs); they end at or before position `bound` of T"""
         H = S.H
         T = H.terms(tree)
         b, j = z3.Int(fresh_name("b")), z3.Int(fresh_name("j"))
@@ -84,7 +84,7 @@ def build(reg):
         uc = toint(upto_closed)
         return VBool(z3.And(
             qforall([b], z3.Implies(z3.And(0 <= b, b < uc), z3.And(
-                blen(b) >= 1, start(b) >= 0,
+                blen(b) >= 1, start(b) >= 0, start(b) + blen(b) <= bound,
                 # a closed block ends in a break
                 nm(T.get(start(b) + blen(b) - 1)) + 1 < nm(T.get(start(b) + blen(b))))), [blen(b)]),
             qforall([b, j], z3.Implies(z3.And(0 <= b, b < uc, 0 <= j, j < blen(b)),
@@ -110,7 +110,7 @@ def build(reg):
         nm = lambda r: H.num(r).t
         return conj(
             VBool(nb >= 1), VBool(L >= 0), VBool(L <= itt),
-            tb_parts(S, blocks, VInt(nb - 1), tree),
+            tb_parts(S, blocks, VInt(nb - 1), tree, start_open),
             VBool(closed_end == start_open),
             VBool(qforall([j], z3.Implies(z3.And(0 <= j, j < L),
                                           z3.And(last.get(j).t == T.get(start_open + j).t,
@@ -144,7 +144,9 @@ def build(reg):
         start = lambda q: T_idx(H, tree, bel(q, 0)).t
         nm = lambda r: H.num(r).t
         return VBool(z3.And(
-            qforall([b], z3.Implies(z3.And(0 <= b, b < nb), blen(b) >= 1), [blen(b)]),
+            # every block is a non-empty slice of T(tree) (positions in range)
+            qforall([b], z3.Implies(z3.And(0 <= b, b < nb), z3.And(blen(b) >= 1, start(b) >= 0,
+                                                                   start(b) + blen(b) <= T.n)), [blen(b)]),
             qforall([b, j], z3.Implies(z3.And(0 <= b, b < nb, 0 <= j, j < blen(b)),
                                        bel(b, j).t == T.get(start(b) + j).t), [bel(b, j).t]),
             qforall([b, j], z3.Implies(z3.And(0 <= b, b < nb, 1 <= j, j < blen(b)),
